@@ -29,6 +29,10 @@ def _unsafe(case):
         flags = 'E'
     if re.search(r'\bsrc=just:', case):      # ro.Just(...) completes synchronously
         return 'C' in flags
+    for inner in re.findall(r'S\[([^\]]*)\]', case):   # a terminal arriving inside the source's Subscribe
+        for t in inner.split(';'):
+            if (t == 'C' and 'C' in flags) or (t.startswith('E') and 'E' in flags):
+                return True
     if not m or m.group(1) == '-':
         return False
     for g in m.group(1).split(';'):
